@@ -21,3 +21,4 @@ func verifWalIO(file any, kind int, b []byte)                            {}
 func verifReplay(fs *fileStore, e *WALEntry, redo bool)                  {}
 func verifLRU(l *LRUCache, kind int, key any, n *btreeNode)              {}
 func verifWalTruncate(file any, size int64)                              {}
+func verifWalWrap(r readWriteSyncCloser) readWriteSyncCloser             { return r }
